@@ -9,6 +9,8 @@ use crate::util::{Cfg, Report, truncate};
 use serde_json::{Value, json};
 
 const BIG: u64 = 1_000_000;
+/// budget marker: finish the paused line with a blocking cont() instead of another continue_async
+const FINISH_BLOCKING: u64 = u64::MAX;
 
 /// schedule: for the k-th Cont of the history, the list of budgets to use (empty = one unsliced cont())
 type Schedule = Vec<Vec<u64>>;
@@ -77,7 +79,7 @@ fn run_schedule(
                 let b = if bi < budgets.len() { budgets[bi] } else { BIG };
                 bi += 1;
                 let before = p.story.verif_counters();
-                let r = p.apply(&Op::ContAsync(b));
+                let r = if b == FINISH_BLOCKING { p.apply(&Op::Cont) } else { p.apply(&Op::ContAsync(b)) };
                 events.extend(r.events.clone());
                 let paused = matches!(&r.res, Ok(s) if s == "paused");
                 if !paused {
@@ -224,6 +226,17 @@ pub fn run(cfg: &Cfg) -> i32 {
             }
         }
         schedules.push(("pause-after-every-step".into(), vec![vec![1; 4000]; conts.len()]));
+        // mixed: a line is started with continue_async, paused once or twice, and finished by a blocking cont()
+        for r in 0..cfg.pick(6, 16) {
+            let sch: Schedule = (0..conts.len())
+                .map(|_| {
+                    let mut b: Vec<u64> = (0..1 + rng.below(2)).map(|_| 1 + rng.below(10) as u64).collect();
+                    b.push(FINISH_BLOCKING);
+                    b
+                })
+                .collect();
+            schedules.push((format!("blocking-finish-{r}"), sch));
+        }
         for r in 0..cfg.pick(4, 12) {
             let sch: Schedule = (0..conts.len())
                 .map(|_| (0..rng.below(4)).map(|_| 1 + rng.below(12) as u64).collect())
@@ -237,7 +250,7 @@ pub fn run(cfg: &Cfg) -> i32 {
             }));
             let witness = |what: &str, detail: Value| {
                 json!({"program": c.name, "source": c.src, "history": hist.ops.iter().map(|o| o.show()).collect::<Vec<_>>(),
-                    "external_functions_lookahead_safe": !unsafe_ext, "schedule": name, "budgets_per_continue": sch.iter().map(|b| b.iter().take(8).collect::<Vec<_>>()).collect::<Vec<_>>(),
+                    "external_functions_lookahead_safe": !unsafe_ext, "schedule": name, "budgets_per_continue": sch.iter().map(|b| b.iter().take(8).map(|x| if *x == FINISH_BLOCKING { "blocking cont()".to_string() } else { x.to_string() }).collect::<Vec<_>>()).collect::<Vec<_>>(),
                     "what": what, "detail": detail, "control_log": recs_json(&hist.recs)})
             };
             match r {
